@@ -170,13 +170,20 @@ def labels(rep, prog, split):
     # face id variables assigned from create_face(...)
     side = {}  # did of face-id variable -> set of face-variable dids (sides) it was built on
     for n in walk(split["body"]):
-        if n.get("k") == "BinaryOperator" and n.get("op") == "=":
-            l, r = strip(n["c"][0]), strip(n["c"][1])
-            if l.get("k") == "DeclRefExpr" and r.get("k") == "CXXMemberCallExpr" and r.get("callee") == "cell::create_face":
+        tgt = rhs = None
+        if n.get("k") == "BinaryOperator" and n.get("op") == "=" and strip(n["c"][0]).get("k") == "DeclRefExpr":
+            tgt, rhs = strip(n["c"][0])["ref"]["did"], n["c"][1]
+        elif n.get("k") == "Var" and isinstance(n.get("init"), dict):
+            tgt, rhs = n["did"], n["init"]
+        if tgt is None:
+            continue
+        # every create_face call the value may come from (both arms of a conditional expression)
+        for r in walk(rhs):
+            if r.get("k") == "CXXMemberCallExpr" and r.get("callee") == "cell::create_face":
                 for a in call_args(r):
                     a = strip(a)
                     if a.get("k") == "DeclRefExpr" and a["ref"]["did"] in opp:
-                        side.setdefault(l["ref"]["did"], set()).add(opp[a["ref"]["did"]])
+                        side.setdefault(tgt, set()).add(opp[a["ref"]["did"]])
     n_sites = 0
     for n in walk(split["body"]):
         if n.get("k") == "CXXMemberCallExpr" and n.get("callee") == "face::set_face_type_id":
@@ -231,13 +238,22 @@ def winding_sides(rep, prog, split):
                         out |= side_of_local(x["ref"]["did"], seen)
         return out
     n_tests = 0
+    covered_sides = set()
+    covered_calls = set()
     for n in walk(split["body"]):
-        if n.get("k") != "IfStmt":
+        if n.get("k") == "IfStmt":
+            cond_node = n["cond"]
+            creates = [x for x in walk(n) if x.get("k") == "CXXMemberCallExpr" and x.get("callee") == "cell::create_face"]
+        elif n.get("k") == "ConditionalOperator" and len(n.get("c", [])) == 3:
+            cond_node = n["c"][0]
+            creates = [x for x in list(walk(n["c"][1])) + list(walk(n["c"][2])) if x.get("k") == "CXXMemberCallExpr" and x.get("callee") == "cell::create_face"]
+        else:
             continue
-        creates = [x for x in walk(n) if x.get("k") == "CXXMemberCallExpr" and x.get("callee") == "cell::create_face"]
         if not creates:
             continue
         n_tests += 1
+        covered_calls |= {id(x) for x in creates}
+        n = dict(n, cond=cond_node)
         cs = set()
         for x in walk(n["cond"]):
             if x.get("k") == "DeclRefExpr" and x["ref"].get("dk") == "Var":
@@ -248,13 +264,16 @@ def winding_sides(rep, prog, split):
                 a = strip(a)
                 if a.get("k") == "DeclRefExpr":
                     bs |= side_of_local(a["ref"]["did"])
+        covered_sides |= cs
         if len(cs) == 1 and bs == cs:
             rep.ok("C11.winding-side", prog, split, n, "orientation test and the faces created under it all refer to one parent face")
         else:
             rep.violation("C11.winding-side", prog, split, n, "orientation test mixes the two parent faces",
                           "the orientation test at line %s uses quantities of %d parent face(s) and creates faces on %d side(s): the opposite node, the reference normal and the new faces must all belong to the same parent triangle, otherwise the children of the other triangle get a reversed winding when the two triangles are folded by more than 90 degrees" % (n.get("l"), len(cs), len(bs)))
-    if n_tests != 2:
-        rep.violation("C11.winding-side", prog, split, None, "%d orientation tests" % n_tests, "split_edge must orient the children of each of the two parent faces (2 tests), found %d" % n_tests)
+    all_calls = {id(x) for x in walk(split["body"]) if x.get("k") == "CXXMemberCallExpr" and x.get("callee") == "cell::create_face"}
+    if len(covered_sides) != 2 or all_calls - covered_calls:
+        rep.violation("C11.winding-side", prog, split, None, "%d orientation decisions over %d parent face(s)" % (n_tests, len(covered_sides)),
+                      "split_edge must orient the children of each of the two parent faces with an orientation test of that face: found %d decision(s) covering %d parent face(s), %d create_face call(s) under no decision" % (n_tests, len(covered_sides), len(all_calls - covered_calls)))
 
 
 def selective(rep, prog):
